@@ -321,3 +321,8 @@ package j5convert
 //@ func (TypeRef).protoTypeName
 //@   modifies fresh:result
 //@   ensures result != nil
+
+// labels (C02): arrays and maps are repeated fields; a member declared optional is proto3 optional
+//@ func buildProperty
+//@   ensures label.repeated: result1 == nil && (typeis(node.Field.Schema, *schema_j5pb.Field_Array) || typeis(node.Field.Schema, *schema_j5pb.Field_Map)) ==> result0.Label != nil && *result0.Label == descriptorpb.FieldDescriptorProto_LABEL_REPEATED
+//@   ensures label.optional: result1 == nil && node.Schema.ExplicitlyOptional ==> result0.Proto3Optional != nil && *result0.Proto3Optional
